@@ -203,6 +203,8 @@ func vrOracle(s string, level int) (wf bool, defects map[string]bool, canon stri
 	return
 }
 
+var vrSeenTag = map[string]bool{}
+
 type vrDec struct {
 	name  string
 	level int
@@ -268,10 +270,19 @@ func TestVerifDecodeSearch(t *testing.T) {
 				}
 			}()
 			if msg != "" {
-				fmt.Printf("SEARCH-HIT decoder=%s input=%q : %s\n", d.name, s, msg)
-				return
+				tag := msg
+				if len(tag) > 3 {
+					tag = tag[:3]
+				}
+				if !vrSeenTag[tag] {
+					vrSeenTag[tag] = true
+					fmt.Printf("SEARCH-HIT decoder=%s input=%q : %s\n", d.name, s, msg)
+				}
 			}
 		}
+	}
+	if len(vrSeenTag) > 0 {
+		return
 	}
 	fmt.Printf("SEARCH-NONE %d decoder/input pairs agree with the oracle\n", n)
 }
@@ -343,6 +354,8 @@ func vrOracle(s string, level int) (wf bool, defects map[string]bool, canon stri
 	return
 }
 
+var vrSeenTag = map[string]bool{}
+
 type vrDec struct {
 	name  string
 	level int
@@ -403,10 +416,19 @@ func TestVerifDecodeSearch(t *testing.T) {
 				}
 			}()
 			if msg != "" {
-				fmt.Printf("SEARCH-HIT decoder=%s input=%q : %s\n", d.name, s, msg)
-				return
+				tag := msg
+				if len(tag) > 3 {
+					tag = tag[:3]
+				}
+				if !vrSeenTag[tag] {
+					vrSeenTag[tag] = true
+					fmt.Printf("SEARCH-HIT decoder=%s input=%q : %s\n", d.name, s, msg)
+				}
 			}
 		}
+	}
+	if len(vrSeenTag) > 0 {
+		return
 	}
 	fmt.Printf("SEARCH-NONE %d decoder/input pairs agree with the oracle\n", n)
 }
@@ -451,4 +473,30 @@ func decodeWitnessSearch(st *SpecTables, repo, pkgDir string) (string, bool) {
 	}
 	decodeSearchCache.Store(key, [2]interface{}{rep, hit})
 	return rep, hit
+}
+
+// decodeWitnessFor: the witness search reports the first failing input per property aspect (C07/C08 acceptance, C09/C10
+// encoding of the written values, C11 sentinel, C12 object-and-error / panic); for a decoder property only the hits of that
+// property's aspect confirm a violation of it. Other properties that include the decoders accept any hit.
+func decodeWitnessFor(st *SpecTables, repo, pkgDir, id string) (string, bool) {
+	rep, hit := decodeWitnessSearch(st, repo, pkgDir)
+	if !hit {
+		return rep, false
+	}
+	aspect := map[string][]string{"C07": {": C07"}, "C08": {": C08"}, "C09": {": C09"}, "C10": {": C10", ": C09/C10"}, "C11": {": C11"}, "C12": {": C12", ": PANIC"}}
+	keys, ok := aspect[id]
+	if !ok {
+		return rep, true
+	}
+	for _, ln := range strings.Split(rep, "\n") {
+		if !strings.HasPrefix(ln, "SEARCH-HIT") {
+			continue
+		}
+		for _, k := range keys {
+			if strings.Contains(ln, k) {
+				return rep, true
+			}
+		}
+	}
+	return strings.Replace(rep, "=> the real decoder violates the property on this input: CONFIRMED", "=> the failing inputs found concern other properties than "+id+"; no failing input for "+id+" in this search", 1), false
 }
